@@ -2,6 +2,7 @@ package rules
 
 import (
 	"go/token"
+	"go/types"
 	"strings"
 
 	. "abverif/internal/engine"
@@ -302,6 +303,31 @@ func (c *Ctx) c13Email() {
 	var bodies []*ssa.Function
 	for _, a := range wrap.AnonFuncs {
 		bodies = append(bodies, a)
+	}
+	// a handler type of the package returned instead of a closure: its ServeHTTP is the body
+	for _, b := range wrap.Blocks {
+		for _, in := range b.Instrs {
+			mi, ok := in.(*ssa.MakeInterface)
+			if !ok {
+				continue
+			}
+			t := mi.X.Type()
+			if p, isP := t.(*types.Pointer); isP {
+				t = p.Elem()
+			}
+			for _, f := range c.P.Funcs {
+				if f.Name() != "ServeHTTP" || f.Signature.Recv() == nil || pkgOf(f) != pkgOf(wrap) {
+					continue
+				}
+				rt := f.Signature.Recv().Type()
+				if p, isP := rt.(*types.Pointer); isP {
+					rt = p.Elem()
+				}
+				if types.Identical(rt, t) {
+					bodies = append(bodies, f)
+				}
+			}
+		}
 	}
 	ns := 0
 	for _, body := range bodies {
